@@ -130,3 +130,29 @@ Proof.
   - vm_compute. do 2 right. left. reflexivity.
 Qed.
 Print Assumptions C18_copy_follow_needed_refuted.
+
+(* Round-7 seed C18_m11 — "the replicas extract the same archive, examine it once per process" is NOT safe: whether an
+   archive may be extracted depends on the directory it is extracted INTO.  An archive that the repaired check accepts
+   for one working directory (and that is refused for the other one) is, when extracted there without being examined
+   again ([extract_once]), created outside that other directory: through the link an earlier :link reference left
+   there, or at an absolute name that lies in the first component's directory.  (No finding: the code examines every
+   extraction; kept so that the dependence of C18_components_confined on it is explicit.) *)
+Theorem C18_checked_once_refuted :
+  (exists d0 d st ms p, gooddir d0 = true /\ comp_ok (d, st, true, [RExtract ms]) = true /\ apart d0 d = true /\
+                        tar_check_pre [] d0 ms = true /\ tar_check_pre (links_of st) d ms = false /\
+                        In p (extract_once d0 [] d st ms) /\ ~ within d p /\
+                        st = [(["t"; "wb"; "shared"], ELink ["input"; "shared"])] /\
+                        ms = [("summary.txt", KFile); ("shared/cache.dat", KFile)]) /\
+  (exists d0 d ms p, gooddir d0 = true /\ comp_ok (d, [], true, [RExtract ms]) = true /\ apart d0 d = true /\
+                     tar_check_pre [] d0 ms = true /\ tar_check_pre [] d ms = false /\
+                     In p (extract_once d0 [] d [] ms) /\ ~ within d p /\ within d0 p /\
+                     ms = [("notes.txt", KFile); ("/t/work/state.txt", KFile)]).
+Proof.
+  split.
+  - exists ["t"; "work"], ["t"; "wb"], [(["t"; "wb"; "shared"], ELink ["input"; "shared"])],
+           [("summary.txt", KFile); ("shared/cache.dat", KFile)], ["input"; "shared"; "cache.dat"].
+    repeat split; [right; left; reflexivity | apply not_within; reflexivity].
+  - exists ["t"; "work"], ["t"; "wb"], [("notes.txt", KFile); ("/t/work/state.txt", KFile)], ["t"; "work"; "state.txt"].
+    repeat split; [right; left; reflexivity | apply not_within; reflexivity | exists ["state.txt"]; reflexivity].
+Qed.
+Print Assumptions C18_checked_once_refuted.
